@@ -9,11 +9,11 @@ Extraction "wfmodel.ml"
   shard_skip shard_skip_trunc shardset shardset_ok
   itoa make_role topic_str
   rs_code rs_of_code rs_valid rs_finished rs_stopped rs_table rs_table_code ctl_target ctl_update lc ctl_documented
-  int32 route_topic_code route_topic route event_of_entry filter_by_fid filter_by_run filter_by_state await_topic await_release
+  int32 route_topic_code route_topic route event_of_entry filter_by_fid filter_by_run filter_by_state await_topic await_release await_first
   route_headers route_type topics_coincide
   build add_transition is_terminal transitions is_valid starting_nodes terminal_nodes default_start validate_transition edges_of graph_node_ok graph_start_ok has_in has_out
   c_add c_clear c_get should_pause
   launch launch_roles role_of
   sched_wake sched_iter
   ref_run mem_run rstore0 mstore0 sops_ok rref_run mmem_run rstream0 mstream0 mops_ok tref_run tmem_run rtstore0 mtstore0
-  run_ops run_op w0 eval_beh ckind_code ufun_code find_step find_to resolve_pause unit_lag unit_topic is_consumer ec_graph.
+  run_ops run_op w0 eval_beh ckind_code ufun_code find_step find_to resolve_pause unit_lag unit_topic is_consumer ec_graph find_sched cron_next spec_period spec_phase.
